@@ -148,6 +148,36 @@ def variants_of(relfile, source):
                     elif isinstance(value, list) and any(v is m for v in value):
                         setattr(par, field, [new if v is m else v for v in value])
             yield 'notcmp', f'{relfile}:{n.lineno} {ast.unparse(n)[:40]} written with not', ast.unparse(ast.fix_missing_locations(t))
+    # nestand: ``if a and b: X`` (no else) -> ``if a: if b: X``;  argtemp: first positional argument of a statement-level call hoisted
+    for fn in functions(tree):
+        for holder in [fn] + [x for x in own_nodes(fn) if isinstance(x, (ast.If, ast.For, ast.While, ast.With, ast.Try))]:
+            for field in ('body', 'orelse'):
+                block = getattr(holder, field, None)
+                if not isinstance(block, list):
+                    continue
+                for k, st in enumerate(block):
+                    if isinstance(st, ast.If) and not st.orelse and isinstance(st.test, ast.BoolOp) and isinstance(st.test.op, ast.And) and len(st.test.values) == 2:
+                        t, nodes = redo(None)
+                        h = nodes[index[id(holder)]]
+                        m = getattr(h, field)[k]
+                        a_, b_ = m.test.values
+                        m.test = a_
+                        m.body = [ast.If(test=b_, body=m.body, orelse=[])]
+                        yield 'nestand', f'{relfile}:{st.lineno} {fn.name}: "if a and b" nested', ast.unparse(ast.fix_missing_locations(t))
+                    call = None
+                    if isinstance(st, (ast.Assign, ast.Return, ast.Expr)) and isinstance(getattr(st, 'value', None), ast.Call):
+                        call = st.value
+                    if (call is not None and pure(call.func) and call.args and isinstance(call.args[0], ast.Call) and not isinstance(call.args[0], ast.Starred)
+                            and not any(isinstance(x, (ast.Yield, ast.YieldFrom, ast.Await, ast.NamedExpr)) for x in ast.walk(st))
+                            and not any(isinstance(x, ast.Name) and x.id == '_arg0' for x in ast.walk(fn))):
+                        t, nodes = redo(None)
+                        h = nodes[index[id(holder)]]
+                        blk = getattr(h, field)
+                        c = blk[k].value
+                        asg = ast.Assign(targets=[ast.Name(id='_arg0', ctx=ast.Store())], value=c.args[0])
+                        c.args[0] = ast.Name(id='_arg0', ctx=ast.Load())
+                        blk.insert(k, asg)
+                        yield 'argtemp', f'{relfile}:{st.lineno} {fn.name}: first argument through a temporary', ast.unparse(ast.fix_missing_locations(t))
     # temp / guard: per function body blocks
     for fn in functions(tree):
         is_gen = any(isinstance(x, (ast.Yield, ast.YieldFrom)) for x in own_nodes(fn))
@@ -175,10 +205,11 @@ def variants_of(relfile, source):
                         yield 'guard', f'{relfile}:{st.lineno} {fn.name}: rest of the function moved into else', ast.unparse(ast.fix_missing_locations(t))
 
 
-def all_variants(kinds=None):
+def all_variants(kinds=None, root=None):
     out = []
-    for path in sorted((REPO / 'concepts').rglob('*.py')):
-        rel = 'concepts/' + path.relative_to(REPO / 'concepts').as_posix()
+    base = pathlib.Path(root) if root else REPO
+    for path in sorted((base / 'concepts').rglob('*.py')):
+        rel = 'concepts/' + path.relative_to(base / 'concepts').as_posix()
         src = path.read_text()
         for kind, label, new in variants_of(rel, src):
             if kinds and kind not in kinds:
